@@ -483,7 +483,7 @@ def main():
 
         dpseg_args[k.replace('_', '-')] = v
 
-    dpseg_args = ' '.join('--{} {}'.format(k, v)
+    dpseg_args = ' '.join('--{} {}'.format(k, shlex.quote(str(v)))
                           for k, v in dpseg_args.items())
 
     # adapt boolean values
